@@ -160,6 +160,29 @@ func genSplice(t *rapid.T, allowForeign bool) ref.Splice {
 		i.Avails = rapid.Byte().Draw(t, "ins-avails")
 		s.Ins = i
 	}
+	if rapid.IntRange(0, 499).Draw(t, "many-descs") == 0 {
+		// hundreds of small descriptors in one section (a cancelled segmentation descriptor takes 11 bytes, the section may
+		// have 4093 behind section_length): counts around the width of a one-byte counter
+		n := rapid.SampledFrom([]int{130, 255, 256, 257, 300, 340}).Draw(t, "many-n")
+		base := uint32(genBits(t, 32, "many-event"))
+		shape := rapid.IntRange(0, 2).Draw(t, "many-shape")
+		s.Descs = []ref.SpliceDesc{}
+		for k := 0; k < n; k++ {
+			d := ref.SpliceDesc{Identifier: ref.CUEI, Event: base + uint32(k), Cancel: true, Comps: []ref.SegOffset{}, MID: []ref.SegUPID{}, UPID: ref.Hex{}}
+			if shape == 1 && k%2 == 1 {
+				d.Cancel, d.Prog, d.NotRestricted, d.Type, d.Num, d.Expected = false, true, true, 0x30+byte(k%8), byte(k), byte(k>>8)
+			}
+			if shape == 2 && allowForeign && k%7 == 3 {
+				d = ref.SpliceDesc{Foreign: true, FTag: 0x80, FBody: []byte("ABCD")}
+			}
+			normUPIDs(&d)
+			s.Descs = append(s.Descs, d)
+		}
+		for len(s.Encode()) > 4000 && len(s.Descs) > 0 { // leaves room for what callers add (alignment stuffing)
+			s.Descs = s.Descs[:len(s.Descs)-4]
+		}
+		return s
+	}
 	nd := rapid.IntRange(0, 5).Draw(t, "ndescs")
 	long := rapid.IntRange(0, 11).Draw(t, "long-section") == 0
 	if long {
@@ -291,17 +314,27 @@ func cmpSplice(what string, m *ref.Splice, s scte35.SCTE35) *hx.Failure {
 		w := w
 		match := -1
 		var first *hx.Failure
-		for _, j := range append([]int{k}, seqExcept(len(ds), k)...) {
+		try := func(j int) bool {
 			if used[j] {
-				continue
+				return false
 			}
-			f := cmpSegDesc(fmt.Sprintf("%s: descriptor %d", what, k), &w, ds[j])
+			// (the long prefix is only formatted for a failure that is reported)
+			f := cmpSegDesc(fmt.Sprintf("descriptor %d", k), &w, ds[j])
 			if f == nil {
 				match = j
-				break
+				return true
 			}
 			if first == nil {
+				f.Msg = what + ": " + f.Msg
 				first = f
+			}
+			return false
+		}
+		if !try(k) {
+			for _, j := range seqExcept(len(ds), k) {
+				if try(j) {
+					break
+				}
 			}
 		}
 		if match < 0 {
